@@ -9,7 +9,7 @@ impl    the live table value / the name the real parser reports (+ that name's r
 model   the Gen table value / Base/Enum.v enum_decode over the Gen table (extracted)"""
 import io, struct
 
-CLAIMED = False
+CLAIMED = True
 CONFIG = {'assumptions': [
     'registry = names on which glibc 2.36 elf.h and LLVM 14 BinaryFormat headers (vendored under registry/) agree; '
     'names they define differently (EM_ALPHA, SHT_HIUSER, DT_LOOS, DT_HIOS, R_AARCH64_P32_TLS_DTPMOD/DTPREL, '
